@@ -262,6 +262,13 @@ def oracle(ctx, ops, impl, max_index, min_left_min, max_age=900):
                     k3 = (node, lst.get("raw", ""), int(s["idx"]))
                     if v == "revoked":
                         cached_foreign[k3] = True
+                        if any(hh.get("kind") == "wrongsubject" and (hh.get("subject") or {}).get("raw") == url and hh.get("url") != url for hh in hosted_now.values()):
+                            stats["verify-after-another-url-served-a-list-claiming-this-one"] += 1
+                    elif k3 in cached_foreign and any(hh.get("kind") == "wrongsubject" and (hh.get("subject") or {}).get("raw") == url and hh.get("url") != url for hh in hosted_now.values()):
+                        stats["verify-after-another-url-served-a-list-claiming-this-one"] += 1
+                        report("C11:revocation-not-permanent:cached-list-replaced-by-a-list-served-from-another-url",
+                               f"{k3}: revoked before from the list the credential names; since then only ANOTHER url served a list claiming to be {url} "
+                               f"(a status entry is honoured only from the list the credential itself names); answer {v}", i)
                     elif k3 in cached_foreign:
                         report("C11:cached-revocation-lost-after-failed-refresh",
                                f"{k3}: revoked before; since then the host only served failures / lists that do not verify; answer {v}", i)
